@@ -13,11 +13,16 @@ import weakref
 from .. import tlc
 from ..core import Ctx, Outcome, Violation
 
-FLAGSETS = [  # (frozen, order, unsafe_hash, user_state)
-    (False, False, False, False), (True, False, False, False), (False, True, False, False),
-    (True, True, False, False), (False, False, True, False), (True, False, False, True),
-    (False, False, False, True),
+FLAGSETS = [  # (frozen, order, unsafe_hash, user_state); user_state: which state hooks the body declares (spec/SlottedState.tla)
+    (False, False, False, "none"), (True, False, False, "none"), (False, True, False, "none"),
+    (True, True, False, "none"), (False, False, True, "none"), (True, False, False, "both"),
+    (False, False, False, "both"), (True, False, False, "set"), (False, False, False, "set"),
+    (True, False, False, "get"), (False, True, False, "get"),
 ]
+
+
+def hooks_of(ustate):
+    return {True: "both", False: "none"}.get(ustate, ustate)
 _N = [0]
 
 
@@ -33,9 +38,16 @@ def _class_src(i, desc, flags, scope, redecl=None):
         body += f"    {redecl}: int = 999\n"
     if i % 2 == 0 and desc["nf"]:
         body = body.replace(f" = {10 * i + 1}\n", f" = dataclasses.field(default_factory=lambda: {10 * i + 1})\n", 1)
-    if ustate:
-        body += ("    def __getstate__(self):\n        return {f.name: getattr(self, f.name) for f in dataclasses.fields(self)}\n"
-                 "    def __setstate__(self, st):\n        for k, v in st.items():\n            object.__setattr__(self, k, v)\n")
+    ustate = hooks_of(ustate)
+    if ustate in ("both", "get"):
+        body += "    def __getstate__(self):\n        return {f.name: getattr(self, f.name) for f in dataclasses.fields(self)}\n"
+    if ustate == "both":
+        body += "    def __setstate__(self, st):\n        for k, v in st.items():\n            object.__setattr__(self, k, v)\n"
+    if ustate == "set":
+        # a lone __setstate__ that copes with both state layouts (a dict; a (dict-or-None, slots) pair) and leaves a mark
+        body += ("    def __setstate__(self, st):\n"
+                 "        if isinstance(st, tuple):\n            st = {**(st[0] or {}), **(st[1] or {})}\n"
+                 "        for k, v in st.items():\n            object.__setattr__(self, k, v + 1000 if isinstance(v, int) else v)\n")
     if not body:
         body = "    pass\n"
     deco = f"@dataclasses.dataclass(frozen={frozen}, order={order}, unsafe_hash={uhash})"
@@ -146,7 +158,16 @@ def run_history(hist, hid, flags, scope, redeclare=False):
             ev["hasdict"] = Cs.__dictoffset__ != 0
             ev["hasweak"] = Cs.__weakrefoffset__ != 0
             bs, bp = battery(Cs, ms.__name__), battery(Cp, mp.__name__)
-            ev["mismatch"] = sorted(f"{op}: slotted={bs.get(op)} plain={bp.get(op)}"[:200] for op in set(bs) | set(bp) if bs.get(op) != bp.get(op))
+            hooks = hooks_of(flags[3])
+            # a lone __getstate__ that returns a dict cannot restore an object without __dict__ (as with the standard library's
+            # own slots=True): copying is not compared for it, the hook bookkeeping below still is
+            skip = ("copy", "deepcopy", "pickle") if hooks == "get" else ()
+            ev["mismatch"] = sorted(f"{op}: slotted={bs.get(op)} plain={bp.get(op)}"[:200] for op in set(bs) | set(bp)
+                                    if bs.get(op) != bp.get(op) and not op.startswith(skip or ("\0",)))
+            ss = Cs.__dict__.get("__setstate__")
+            ev["state"] = {"frozen": bool(flags[0]), "hooks": hooks,
+                           "effective": "default" if ss is None else
+                           "user" if getattr(getattr(ss, "__code__", None), "co_filename", "") == "<verif-slotted>" else "fix"}
         events.append(ev)
     for m in (ms, mp):
         sys.modules.pop(m.__name__, None)
@@ -203,15 +224,29 @@ def run(ctx: Ctx) -> Outcome:
         events += run_history(h, hid, flags, scope, redeclare=(hid % 4 == 1))
     tres, rejects = tlc.validate_trace("Slotted_Trace", "Slotted_Trace.cfg", [_slim(e) for e in events], timeout=3600)
     viol = _violations(rejects, events)
+    # which __setstate__ each slotted class ends up with: spec/SlottedState.tla
+    sm = tlc.must(tlc.run("SlottedState", "MC_SlottedState.cfg", workers=2), "SlottedState model")
+    lone = tlc.run("SlottedState", "MC_SlottedState_lone.cfg", workers=2)
+    if lone.ok or "UserHookKept" not in lone.stdout:
+        raise tlc.MachineryError("SlottedState model not sensitive: overriding a lone user hook must violate UserHookKept")
+    states += sm.distinct; trans += sm.generated
+    sev = [e for e in events if "state" in e]
+    _, srej = tlc.validate_trace("SlottedState_Trace", "SlottedState_Trace.cfg", [e["state"] for e in sev], timeout=3600)
+    for r in srej:
+        e = sev[r["rej"] - 1]
+        hist = [x["desc"] for x in events if x["hid"] == e["hid"] and x["step"] <= e["step"]]
+        viol.append(Violation(clause=r["clause"], case={"hist": hist, "flags": e["flags"], "scope": e["scope"], "redeclare": bool(e.get("redeclares"))},
+                              fields={"frozen": e["state"]["frozen"], "hooks": e["state"]["hooks"], "effective": e["state"]["effective"]},
+                              msg=f"step {e['step']} {e['desc']} flags={e['flags']}: __setstate__ in use is {e['state']['effective']}"))
     drift = [{"event": _slim(events[p["drift"] - 1]), "model": p["model"]} for p in tres.printed
              if isinstance(p, dict) and "drift" in p][:20]
     nontrivial = {(tuple(sorted(e["desc"].items())), tuple(e["flags"]), e["scope"]) for e in events if e["desc"]["base"]}
     cov = {"states": states, "transitions": trans, "exhaustive": True,
            "traces_validated_against_impl": len(events), "evaluations": len(events),
-           "distinct_nontrivial": len(nontrivial), "histories": len(hists),
+           "distinct_nontrivial": len(nontrivial), "histories": len(hists), "state_hook_events": len(sev),
            "rule": "model: every decoration history of length<=3 over 2 names (thorough: 4 over one name); real: TLC-emitted complete "
                    "histories (one repeated name, length 3; two names, length 2, up to 2 fields) materialised with decorator syntax at "
-                   "module and function-local scope under 7 dataclass flag sets (every fourth history with the child re-declaring a field of its base), each slotted class compared with its plain twin under "
+                   "module and function-local scope under 11 dataclass flag sets (frozen/order/unsafe_hash x the state hooks the body declares: none, both, a lone __setstate__, a lone __getstate__) (every fourth history with the child re-declaring a field of its base), each slotted class compared with its plain twin under "
                    "the operation battery; non-trivial = decoration of a class with a base",
            "samples": [_slim(events[len(events) // 2])]}
     return Outcome(level="model_checking", coverage=cov, violations=viol, impl_drift=drift,
@@ -227,4 +262,9 @@ def replay(ctx: Ctx, rep: dict) -> Outcome:
     for e in ev:
         print(e["src"]); print("  ->", _slim(e))
     _, rejects = tlc.validate_trace("Slotted_Trace", "Slotted_Trace.cfg", [_slim(e) for e in ev])
-    return Outcome(level="model_checking", coverage={"evaluations": len(ev)}, violations=_violations(rejects, ev))
+    viol = _violations(rejects, ev)
+    sev = [e for e in ev if "state" in e]
+    if sev:
+        _, srej = tlc.validate_trace("SlottedState_Trace", "SlottedState_Trace.cfg", [e["state"] for e in sev])
+        viol += [Violation(clause=r["clause"], case=c, fields=sev[r["rej"] - 1]["state"], msg=str(sev[r["rej"] - 1]["state"])) for r in srej]
+    return Outcome(level="model_checking", coverage={"evaluations": len(ev)}, violations=viol)
